@@ -141,8 +141,10 @@ func C18(r *core.Run) {
 				}
 				if cmd == "format" && !ok {
 					// not a rule argument: an include name
+					// (an include file is an assembly file: NAME stands for include/NAME.ra unless it ends in .ra itself;
+					// C15: format writes only .ra files)
 					name := arg
-					if filepath.Ext(name) == "" {
+					if filepath.Ext(name) != ".ra" {
 						name += ".ra"
 					}
 					p := "regex-assembly/include/" + name
